@@ -207,7 +207,7 @@ static int ext_domain(uint8_t c, const std::vector<bytes>& o) {
         if (a >= 0 && b >= 0 && b < 32 && isnum4(o[0]) && isnum4(o[1])) return 0;
         // wider shifts / 5-byte values: either a script error or exactly the denoted value (a left shift whose result needs more than
         // 63 bits has no denoted value: the reference fails it); negative values shifted right are left to the implementation
-        if (c == 0x99 && a < 0) return 1;
+        if (c == 0x99 && a < 0) return (b >= 0 && b <= 62) ? 3 : 1;   // 3: sign-preserving shift, rounding either down (two's complement) or towards zero (sign-magnitude)
         return 2;
     }
     case 0x7f: return (o[1].size() <= 2 && o[2].size() <= 2) ? 0 : 2;   // 2: must fail or give the slice (wider offsets are numerically out of range or tool-limited)
@@ -243,6 +243,14 @@ static void run_ext(const ExtCase& e, Violations& V, std::map<std::string, long 
     }
     int dom = (int)e.operands.size() < ext_arity(e.op) ? 0 : ext_domain(e.op, e.operands);
     if (dom == 1) { hist["no-crash-only"]++; return; }
+    if (dom == 3) {
+        hist["rshift-negative"]++;
+        int64_t a = ref::num_decode(e.operands[0]), b = ref::num_decode(e.operands[1]);
+        bytes down = ref::num_encode(a >> b), tozero = ref::num_encode(-((-a) >> b));
+        if (ie == "" && !(s.stack().size() == 1 && (s.stack()[0] == down || s.stack()[0] == tozero)))
+            V.add("c17:wrong-result:" + nm + ":negative", what + ": a right shift of a negative value is " + ref::hex(down) + " (rounding down) or " + ref::hex(tozero) + " (towards zero); the debugger gives " + impl::stack_str(s.stack()), rj);
+        return;
+    }
     bool ref_ok = re == ref::Err::OK;
     if (dom == 2) { hist["fail-or-denoted"]++; if (ie == "" && (!ref_ok || s.stack() != m.stack)) V.add("c17:wrong-result:" + nm, what + ": result " + impl::stack_str(s.stack()) + " is neither a script error nor the denoted value", rj); return; }
     if (!ref_ok) {
@@ -294,6 +302,17 @@ static void check_int(int64_t n, Violations& V, NumStats& st) {
     std::string dec = std::to_string(n);
     Value vd(dec.c_str());
     if (vd.type != Value::T_INT || vd.int64 != n) V.add("c18:decimal-literal", "decimal literal " + dec + " is not read as that integer", rj());
+    // the literal as a script: compiled (OP_0 / OP_1NEGATE / OP_1..OP_16 / a number push) and EXECUTED it must leave the codec's encoding of n
+    if (vd.type == Value::T_INT) {
+        CScript cs; vd >> cs;
+        bytes scr(cs.begin(), cs.end());
+        impl::Session se;
+        if (se.open(scr, {}, 0, ref::SigVer::BASE, false)) {
+            std::string e = se.step();
+            if (e != "" || se.stack().size() != 1 || se.stack()[0] != want)
+                V.add("c18:literal-executed", "the literal " + dec + " compiles to " + ref::hex(scr) + " and executing it " + (e != "" ? "fails with " + e : "leaves " + impl::stack_str(se.stack())) + ", expected [" + ref::hex(want) + "]", rj());
+        } else if (want.size() <= 520) V.add("c18:literal-executed", "the literal " + dec + " compiles to " + ref::hex(scr) + ", which is refused", rj());
+    }
     if (want.size() <= 4) {
         std::string lit = "0x" + ref::hex(want);
         Value vh(lit.c_str());
